@@ -102,6 +102,8 @@ func ParseCorpus(files map[string][]byte) ([]SegFile, error) {
 type Discrepancy struct {
 	Key  string
 	What string
+	// Units: for the leading-samples keys, the ids of the units missing from the recording
+	Units []int
 }
 
 // AbsTicks returns the absolute DTS of sample s of segment file f in track ticks
@@ -131,7 +133,7 @@ func CompareWithSent(h History, segs []SegFile) []Discrepancy {
 		byStream[id] = append(byStream[id], &segs[i])
 	}
 	if len(streams) != len(h.Sessions) {
-		out = append(out, Discrepancy{"stream-count", fmt.Sprintf("%d stream ids on disk for %d sessions", len(streams), len(h.Sessions))})
+		out = append(out, Discrepancy{Key: "stream-count", What: fmt.Sprintf("%d stream ids on disk for %d sessions", len(streams), len(h.Sessions))})
 		return out
 	}
 	for si := range h.Sessions {
@@ -151,27 +153,67 @@ func CompareWithSent(h History, segs []SegFile) []Discrepancy {
 					}
 				}
 			}
+			// the head of the track is missing (the first recorded sample is a later expected
+			// unit): a class of its own; the rest of the track is compared from that unit on
+			if len(have) > 0 && len(want) > 0 && have[0].s.UnitID != want[0].UnitID {
+				skip := 0
+				for k := 1; k < len(want); k++ {
+					if want[k].UnitID == have[0].s.UnitID {
+						skip = k
+						break
+					}
+				}
+				if skip > 0 {
+					f0 := byStream[streams[si]][0]
+					// "older": every missing unit is older than the start of the first segment (the
+					// recorder discards such samples as too late, by design: the first segment starts
+					// with the first sample it can write, fMP4 has no negative base times), or is a
+					// non-random-access video unit that follows such a unit (it cannot be decoded)
+					older := true
+					inLate := true
+					var ids []int
+					for j, w := range want[:skip] {
+						ids = append(ids, w.UnitID)
+						ns := (w.PTS/w.Clock)*int64(time.Second) + (w.PTS%w.Clock)*int64(time.Second)/w.Clock
+						switch {
+						case inLate && ns < f0.Info.MtxiDTS:
+						case j > 0 && w.Video && !w.Sync:
+							inLate = false
+						default:
+							older = false
+						}
+					}
+					key := "leading-samples-missing"
+					if older {
+						key = "leading-samples-older-than-first-segment-missing"
+					}
+					out = append(out, Discrepancy{Key: key, Units: ids, What: fmt.Sprintf(
+						"session %d track %d: the first %d units sent %v are not recorded (first recorded unit %d; the first segment %s starts at DTS %s)",
+						si, ti, skip, ids, have[0].s.UnitID, filepath.Base(f0.Rel), time.Duration(f0.Info.MtxiDTS))})
+					want = want[skip:]
+				}
+			}
 			n := len(want)
 			if len(have) != n && len(have) != n-1 {
-				out = append(out, Discrepancy{"sample-count", fmt.Sprintf("session %d track %d: %d samples recorded, %d (or %d) expected", si, ti, len(have), n, n-1)})
+				out = append(out, Discrepancy{Key: "sample-count", What: fmt.Sprintf("session %d track %d: %d samples recorded, %d (or %d) expected", si, ti, len(have), n, n-1)})
 			}
 			for i := 0; i < len(have) && i < n; i++ {
 				w, g := want[i], have[i]
 				if g.s.UnitID != w.UnitID {
-					out = append(out, Discrepancy{"sample-order", fmt.Sprintf("session %d track %d sample %d is unit %d, expected unit %d", si, ti, i, g.s.UnitID, w.UnitID)})
+					out = append(out, Discrepancy{Key: "sample-order", What: fmt.Sprintf("session %d track %d sample %d is unit %d, expected unit %d", si, ti, i, g.s.UnitID, w.UnitID)})
 					break
 				}
 				if g.s.Sync != w.Sync {
-					out = append(out, Discrepancy{"sync-flag", fmt.Sprintf("unit %d recorded with sync=%v, sent with %v", w.UnitID, g.s.Sync, w.Sync)})
+					out = append(out, Discrepancy{Key: "sync-flag", What: fmt.Sprintf("unit %d recorded with sync=%v, sent with %v", w.UnitID, g.s.Sync, w.Sync)})
 				}
 				// two independent truncations (segment start in ns -> ticks, part base time): +-2 ticks
 			if d := AbsTicks(g.f, g.s) - w.PTS; d < -2 || d > 2 {
-					out = append(out, Discrepancy{"timestamp", fmt.Sprintf("unit %d recorded at %d ticks, sent at %d", w.UnitID, AbsTicks(g.f, g.s), w.PTS)})
+					out = append(out, Discrepancy{Key: "timestamp", What: fmt.Sprintf("unit %d recorded at %d ticks, sent at %d", w.UnitID, AbsTicks(g.f, g.s), w.PTS)})
 				}
 				if i+1 < n {
 					wd := want[i+1].PTS - w.PTS
 					if d := int64(g.s.Dur) - wd; d < -1 || d > 1 {
-						out = append(out, Discrepancy{"duration", fmt.Sprintf("unit %d recorded with duration %d, next unit is %d ticks later", w.UnitID, g.s.Dur, wd)})
+						out = append(out, Discrepancy{Key: "duration", What: fmt.Sprintf("unit %d recorded with duration %d, next unit is %d ticks later", w.UnitID, g.s.Dur, wd)})
 					}
 				}
 			}
